@@ -19,5 +19,6 @@ let dispatch fnum z nat entry (is : int list) (xs : Obj.t list) : Obj.t list res
   | "polar_left", [] -> run_polar_left fnum xs
   | "polar_right", [] -> run_polar_right fnum xs
   | "decomp", [] -> run_decomp fnum xs
+  | "decomp_series", [] -> run_decomp_series fnum xs
   | "voigt", is -> run_voigt fnum (List.map z is) xs
   | _ -> Err OtherError
